@@ -92,6 +92,8 @@ Definition block_sum (n off : nat) (V : vec) : Q := sumn n (fun i => vnth (off +
 Definition y0_rho (nodelist : list node) (rho : Q) : vec := map (fun _ => rho) nodelist.
 Definition y0_set (nodelist I0 : list node) : vec := map (fun u => if mem u I0 then 1 else 0) nodelist.
 Definition x0_of (Y0 : vec) : vec := map (fun y => 1 - y) Y0.
+(* SIR *_pure_IC with initial_recovereds: X0 = [0 if u in initial_recovereds.union(initial_infecteds) else 1 for u in nodelist] *)
+Definition x0_sets (nodelist I0 R0 : list node) : vec := map (fun u => if mem u R0 || mem u I0 then 0 else 1) nodelist.
 Definition ib_SIS_V0 (Y0 : vec) : vec := Y0.
 Definition ib_SIR_V0 (X0 Y0 : vec) : vec := X0 ++ Y0.
 (* SIS_pair_based: X0 = 1 - Y0; XY0 = X0[:,None]*Y0[None,:]*A; XX0 = X0[:,None]*X0[None,:]*A with A =
